@@ -45,6 +45,7 @@ type section = {
   grs : (int, int list) Hashtbl.t;
   pfx : (int * int, unit) Hashtbl.t;
   prank : (int, int) Hashtbl.t;
+  labelled : (int, unit) Hashtbl.t;
   mutable problems : problem list;
   mutable stable : int;
   mutable err : string;
@@ -53,7 +54,7 @@ type section = {
 let new_section () = { dir = ""; opts = Hashtbl.create 8; nodes = Hashtbl.create 4096; args = Hashtbl.create 1024;
                        bvs = Hashtbl.create 64; edges = Hashtbl.create 4096; fns = Hashtbl.create 1024; fps = Hashtbl.create 1024;
                        fvs = Hashtbl.create 64; css = Hashtbl.create 1024; rms = Hashtbl.create 1024; grs = Hashtbl.create 64;
-                       pfx = Hashtbl.create 64; prank = Hashtbl.create 64; problems = []; stable = -1; err = "" }
+                       pfx = Hashtbl.create 64; prank = Hashtbl.create 64; labelled = Hashtbl.create 1024; problems = []; stable = -1; err = "" }
 
 let add_multi h k v = Hashtbl.replace h k (v :: (try Hashtbl.find h k with Not_found -> []))
 
@@ -70,6 +71,7 @@ let parse_line sec l =
   match split_ws l with
   | "OPT" :: k :: v :: _ -> Hashtbl.replace sec.opts k (int_of_string v)
   | "PFX" :: a :: b :: _ -> Hashtbl.replace sec.pfx (int_of_string a, int_of_string b) ()
+  | "LB" :: n :: _ -> Hashtbl.replace sec.labelled (int_of_string n) ()
   | "PRANK" :: a :: b :: _ -> Hashtbl.replace sec.prank (int_of_string a) (int_of_string b)
   | "FN" :: f :: rest -> Hashtbl.replace sec.fns (int_of_string f) (List.map int_of_string rest)
   | "FP" :: f :: i :: n :: _ -> add_multi sec.fps (int_of_string f) (int_of_string i, int_of_string n)
@@ -160,7 +162,9 @@ let build_graph sec : graph =
   let pfx = sec.pfx in
   { g_nodes = !nodemap; g_fns = !fnmap; g_reads = !reads;
     g_pfx = (fun a b -> Hashtbl.mem pfx (int_of_pos a, int_of_pos b));
-    g_prank = (fun a -> try pos_of_int (Hashtbl.find sec.prank (int_of_pos a)) with Not_found -> a) }
+    g_prank = (fun a -> try pos_of_int (Hashtbl.find sec.prank (int_of_pos a)) with Not_found -> a);
+    g_presum = (fun f -> match (try Hashtbl.find sec.fns (int_of_pos f) with Not_found -> []) with _ :: _ :: _ :: _ :: ps :: _ -> ps = 1 | _ -> false);
+    g_labelled = (fun n -> Hashtbl.mem sec.labelled (int_of_pos n)) }
 
 let build_preds pr : preds =
   let bit n b = (try Hashtbl.find pr.bits (int_of_pos n) with Not_found -> 0) land b <> 0 in
